@@ -4,6 +4,8 @@ import random
 
 import can
 
+from . import kernel
+
 
 class Frame:
     __slots__ = ('seq', 't', 'src', 'can_id', 'ext', 'data', 'fd', 'dropped', 'remote', 'error')
@@ -40,7 +42,11 @@ class Port:
         self.rx_log = []         # (t_ns, Frame) actually delivered to this port
 
     def send(self, can_id, extended_id, data, fd_format=False):
-        self.bus.send(self.name, can_id, extended_id, bytes(bytearray(data)), fd_format)
+        try:
+            raw = bytes(bytearray(data))
+        except (ValueError, TypeError) as e:
+            raise kernel.IllegalFrame('frame %08X with data %r: %s' % (can_id, list(data)[:12], e))
+        self.bus.send(self.name, can_id, extended_id, raw, fd_format)
 
     def bind_ecu(self, ecu, via='listener', exc_sink=None):
         """Deliver frames to a real ElectronicControlUnit.
@@ -80,6 +86,7 @@ class SimBus:
         self.silent = set()
         self.fired = {}           # fault kind -> count (counted when it actually fires)
         self.deliveries = 0
+        self.after_rx = []        # callables(Port, Frame) invoked right after a receiver has processed a frame (an application running at once)
         self.observers = []       # callables(Frame) invoked at send time (bus monitors; must not send)
         self.post_hooks = []      # callables(Frame) invoked at the end of send(), still inside the sender's call: the place for
                                   # nested application calls / reactive frames, so that what they send follows this frame on the bus
@@ -189,3 +196,5 @@ class SimBus:
         p.rx_log.append((self.sim.now, fr))
         self.sim.log('rx', p.name, fr.seq)
         p.deliver(fr)
+        for h in self.after_rx:
+            h(p, fr)
